@@ -367,10 +367,15 @@ class ClientWorldObjectManager:
         new_region_handle = new_properties.get("RegionHandle", obj.RegionHandle)
         old_region_state = self._get_region_state(old_region_handle)
         new_region_state = self._get_region_state(new_region_handle)
+        # The object may have been parked under a handle that wasn't tracked when it got there
+        # (see "unknown region" below.) Then no region state owns it, whatever its handle says.
+        if old_region_state is not None and old_region_state.lookup_localid(old_local_id) is not obj:
+            old_region_state = None
+        region_changed = old_region_handle != new_region_handle or old_region_state is None
 
         actually_updated_props = set()
 
-        if old_region_handle != new_region_handle:
+        if region_changed:
             # The object just changed regions, we have to remove it from the old one.
             # Our LocalID will most likely change because, well, our locale changed.
             # It may have been sitting in a region we don't track, nothing to remove it from.
@@ -392,7 +397,7 @@ class ClientWorldObjectManager:
 
         actually_updated_props |= obj.update_properties(new_properties)
 
-        if new_region_handle != old_region_handle:
+        if region_changed:
             # Region just changed to this region, we should have untracked it before
             # so mark it tracked on this region. This should implicitly pick up any
             # orphans and handle parent ID changes.
